@@ -59,6 +59,11 @@ def main():
     summary_into = None
     if '--summary-into' in args:
         i = args.index('--summary-into'); summary_into = args[i + 1]; del args[i:i + 2]
+    seeded_only = False
+    if '--seeded-only' in args:
+        # only the independently seeded changes and the fix canaries (canary-*.diff); earlier results for the own
+        # mutants are kept in results.json (each entry carries the time it was obtained)
+        seeded_only = True; args.remove('--seeded-only')
     j = 3
     if '-j' in args:
         i = args.index('-j'); j = int(args[i + 1]); del args[i:i + 2]
@@ -68,7 +73,7 @@ def main():
         d = os.path.join(root, 'selftest', p)
         if not os.path.isdir(d): continue
         for f in sorted(os.listdir(d)):
-            if f.endswith('.diff'): jobs.append((p, os.path.join(d, f)))
+            if f.endswith('.diff') and (not seeded_only or f.startswith('canary-')): jobs.append((p, os.path.join(d, f)))
     res = []
     with concurrent.futures.ThreadPoolExecutor(j) as ex:
         for r in ex.map(lambda a: run_one(*a), jobs):
@@ -94,7 +99,17 @@ def main():
     bad = [r for r in res if not r['ok']]
     print('%d mutants, %d as expected, %d mismatches' % (len(res), len(res) - len(bad), len(bad)))
     for r in res: r.pop('detail', None)
-    json.dump(res, open(os.path.join(root, 'selftest', 'results.json'), 'w'), indent=1)
+    stamp = time.strftime('%Y-%m-%dT%H:%M:%SZ', time.gmtime())
+    for r in res: r['at'] = stamp
+    # merge with earlier results: a case that was not run this time keeps its last result (and its time stamp)
+    rp = os.path.join(root, 'selftest', 'results.json')
+    merged = {}
+    if os.path.exists(rp):
+        try:
+            for r in json.load(open(rp)): merged[(r['prop'], r['name'])] = r
+        except Exception: pass
+    for r in res: merged[(r['prop'], r['name'])] = r
+    json.dump(sorted(merged.values(), key=lambda r: (r['prop'], r['name'])), open(rp, 'w'), indent=1)
     if summary_into:
         ev = json.load(open(os.path.join(root, summary_into)))
         ev['coverage']['must_fail_corpus'] = {
